@@ -54,6 +54,16 @@ CHECKS = {
          "D (read(write) within quantum), E for plain ranges and enumerations.",
     note="Trusted: TLC, lxml XMLSchema, a hand table of unit scales for 7 converting types. E reported (not judged) for other types.",
     technique="TLC-generated boundary/threshold domain from extracted facets, schema-judged replay through real elements, TLC clause evaluation"),
+ "C13": dict(
+    category="model_checking", design_ref="DESIGN.md §4 C13",
+    text="Layout.tla: PhMirror (type, idx, orientation, size of the non-latent layout placeholders, document order), unique names, "
+         "inheritance (layout counterpart by idx, else the master placeholder of the mapped type, else nothing), last in order, related to "
+         "the layout, other slides untouched, override reported, notes slide mirrors the notes master. MC_Layout enumerates placeholder "
+         "populations (every type x idx class x orientation x size x own-geometry; pairs/triples incl. duplicates and latent types) and "
+         "short histories; the driver rewrites a layout part accordingly and replays; every layout of every corpus deck gets a slide in an "
+         "accumulating history; TLC validates every observed step.",
+    note="Trusted: TLC; placeholders read from the lxml tree, geometry through the public readers. Duplicate idx: any counterpart accepted.",
+    technique="TLA+ spec + TLC-enumerated populations/histories materialised as real layouts + corpus layouts; TLC trace validation"),
  "C14": dict(
     category="model_checking", design_ref="DESIGN.md §4 C14",
     text="Table.tla has a property layer (regions read off the public readers, text tokens, frame = sum) and an Impl layer (the four "
